@@ -1,8 +1,513 @@
-//! C12 — not built yet.
+//! C12 — play, stop and rewind behave like a cassette deck for every command history.
+//! Component level: command histories on the real `Tap` (hook `verif_tape`), EAR edges and the
+//! stopped state compared exactly with the Lean model and with the cassette-deck spec. System level:
+//! the real ROM loads blocks after scripted Emulator::play_tape/stop_tape/rewind_tape calls.
+use crate::c10::{Fill, Req};
+use crate::c11::{self, case_text, parse_case, Case, Cmd, RealTap, SysCase, SysOp};
 use crate::util::*;
 
-pub fn run(_o: &Opts) -> Report {
+#[derive(Clone, Debug)]
+struct Dis {
+    kind: Kind,
+    key: String,
+    what: String,
+    implementation: String,
+    expected: String,
+    hazards: Vec<String>,
+}
+
+fn parse_edges(t: &[&str]) -> Vec<(u64, bool)> {
+    t.iter()
+        .filter_map(|e| {
+            let (a, b) = e.split_once(':')?;
+            Some((u64::from_str_radix(a, 16).ok()?, b == "1"))
+        })
+        .collect()
+}
+
+fn show_edge(v: &[(u64, bool)], k: usize) -> String {
+    v.get(k)
+        .map(|(t, l)| format!("edge #{} at T={} to level {}", k, t, if *l { 1 } else { 0 }))
+        .unwrap_or(format!("no edge #{}", k))
+}
+
+/// Hazards of a history with respect to the three stale-state paths of `Tap` (they name the
+/// finding; a history without any of them must never disagree with the deck).
+fn hazards(cmds: &[Cmd], deck_playing_after: &[Option<bool>], upto: usize) -> Vec<String> {
+    let mut playing = false;
+    let mut played = false;
+    let mut stopped_before = false;
+    let mut hz: Vec<String> = vec![];
+    for (i, c) in cmds.iter().enumerate() {
+        if i > upto {
+            break;
+        }
+        match c {
+            Cmd::Play => playing = true,
+            Cmd::Stop => {
+                if !playing {
+                    hz.push("stop-while-stopped".into());
+                } else {
+                    stopped_before = true;
+                }
+                playing = false;
+            }
+            Cmd::Rewind => {
+                if played {
+                    hz.push("rewind-stale-state".into());
+                }
+            }
+            Cmd::Run { .. } => {
+                if playing {
+                    played = true;
+                }
+                if let Some(Some(p)) = deck_playing_after.get(i) {
+                    if playing && !*p {
+                        // the deck ran off the end during this run
+                        if stopped_before {
+                            hz.push("end-of-tape-stale-state".into());
+                        }
+                        playing = false;
+                        played = false;
+                    }
+                }
+            }
+        }
+    }
+    hz.sort();
+    hz.dedup();
+    hz
+}
+
+fn run_case(model: &mut Model, fixed: bool, c: &Case, mut rep: Option<&mut Report>) -> Option<Dis> {
+    let mut real = RealTap::new(&c.tape, c.chunk);
+    let mut lines = vec![
+        format!("variant {}", if fixed { 1 } else { 0 }),
+        format!("tape {}", if c.tape.is_empty() { "-".to_string() } else { hex(&c.tape) }),
+    ];
+    let mut obs = vec![];
+    for k in &c.cmds {
+        lines.push(k.line());
+        obs.push(real.cmd(k));
+    }
+    let answers = model.ask_many(&lines);
+    let mut deck_playing: Vec<Option<bool>> = vec![];
+    let mut first: Option<Dis> = None;
+    for (i, o) in obs.iter().enumerate() {
+        let ans = &answers[i + 2];
+        let o = match o {
+            None => {
+                deck_playing.push(None);
+                continue;
+            }
+            Some(o) => o,
+        };
+        let (mpart, dpart) = ans.split_once(" D ").unwrap_or((ans.as_str(), "undecided"));
+        if let Some(r) = rep.as_deref_mut() {
+            r.evaluations += o.edges.len() as u64 + 1;
+            r.count_n("edges_compared", "edges", o.edges.len() as u64);
+        }
+        // deck (spec)
+        let mut spec_dis: Option<(String, String, String)> = None;
+        if dpart != "undecided" {
+            let t: Vec<&str> = dpart.split(' ').collect();
+            let dplaying = t[0] == "1";
+            deck_playing.push(Some(dplaying));
+            let dedges = if t.len() > 3 { parse_edges(&t[3..]) } else { vec![] };
+            if dedges != o.edges {
+                let k = dedges.iter().zip(o.edges.iter()).position(|(a, b)| a != b).unwrap_or(dedges.len().min(o.edges.len()));
+                spec_dis = Some((
+                    format!("command {} ({}): {} but a cassette deck gives {}", i, c.cmds[i].line(), show_edge(&o.edges, k), show_edge(&dedges, k)),
+                    show_edge(&o.edges, k),
+                    show_edge(&dedges, k),
+                ));
+            } else if dplaying == o.stopped {
+                spec_dis = Some((
+                    format!(
+                        "command {} ({}): the tape is {} but a cassette deck is {}",
+                        i,
+                        c.cmds[i].line(),
+                        if o.stopped { "stopped" } else { "running" },
+                        if dplaying { "running" } else { "stopped" }
+                    ),
+                    format!("stopped={}", o.stopped),
+                    format!("stopped={}", !dplaying),
+                ));
+            }
+        } else {
+            deck_playing.push(None);
+        }
+        if first.is_none() {
+            if let Some((what, got, want)) = spec_dis {
+                first = Some(Dis {
+                    kind: Kind::SpecViolated,
+                    key: String::new(),
+                    what,
+                    implementation: got,
+                    expected: want,
+                    hazards: hazards(&c.cmds, &deck_playing, i),
+                });
+            } else if o.text() != mpart {
+                let t: Vec<&str> = mpart.split(' ').collect();
+                let medges = if t.len() > 5 { parse_edges(&t[5..]) } else { vec![] };
+                let k = medges.iter().zip(o.edges.iter()).position(|(a, b)| a != b).unwrap_or(medges.len().min(o.edges.len()));
+                first = Some(Dis {
+                    kind: Kind::ModelMismatch,
+                    key: "C12/model/edges".into(),
+                    what: format!(
+                        "command {} ({}): {} / {} but the Lean model gives {} / {}",
+                        i,
+                        c.cmds[i].line(),
+                        show_edge(&o.edges, k),
+                        o.text().split(' ').take(4).collect::<Vec<_>>().join(" "),
+                        show_edge(&medges, k),
+                        t.iter().take(4).cloned().collect::<Vec<_>>().join(" ")
+                    ),
+                    implementation: c11::truncate(&o.text(), 200),
+                    expected: c11::truncate(mpart, 200),
+                    hazards: vec![],
+                });
+            }
+        }
+    }
+    if let Some(mut d) = first {
+        if d.kind == Kind::SpecViolated {
+            d.key = if d.hazards.is_empty() { "C12/deck".to_string() } else { format!("C12/{}", d.hazards.join("+")) };
+        }
+        return Some(d);
+    }
+    None
+}
+
+fn shrink(model: &mut Model, fixed: bool, c: &Case, d0: &Dis) -> Case {
+    let mut cur = c.clone();
+    let mut cur_h = d0.hazards.len().max(1);
+    let mut budget = 120;
+    let ok = |model: &mut Model, cand: &Case, cur_h: usize| -> Option<usize> {
+        match run_case(model, fixed, cand, None) {
+            Some(d) if d.kind == d0.kind && (d.kind != Kind::SpecViolated || (d.hazards.len() <= cur_h && d.hazards.iter().all(|h| d0.hazards.contains(h)))) => {
+                Some(d.hazards.len().max(1))
+            }
+            _ => None,
+        }
+    };
+    'outer: loop {
+        // drop single commands (from the end first), then simplify the tape, then shorten runs
+        let mut cands: Vec<Case> = vec![];
+        for i in (0..cur.cmds.len()).rev() {
+            if cur.cmds.len() > 1 {
+                let mut k = cur.clone();
+                k.cmds.remove(i);
+                cands.push(k);
+            }
+        }
+        let (blocks, _) = c11::split(&cur.tape);
+        if blocks.len() > 1 {
+            for i in 0..blocks.len() {
+                let mut b = blocks.clone();
+                b.remove(i);
+                cands.push(Case { tape: c11::encode(&b), ..cur.clone() });
+            }
+        }
+        for i in 0..blocks.len() {
+            if blocks[i].len() > 1 {
+                let mut b = blocks.clone();
+                b[i].truncate(1);
+                cands.push(Case { tape: c11::encode(&b), ..cur.clone() });
+            }
+            if !blocks[i].is_empty() && blocks[i][0] != 0xFF {
+                let mut b = blocks.clone();
+                b[i][0] = 0xFF;
+                cands.push(Case { tape: c11::encode(&b), ..cur.clone() });
+            }
+        }
+        for i in 0..cur.cmds.len() {
+            if let Cmd::Run { kind, seed, n } = cur.cmds[i] {
+                if n > 1 {
+                    let mut k = cur.clone();
+                    k.cmds[i] = Cmd::Run { kind, seed, n: n / 2 };
+                    cands.push(k);
+                    let mut k = cur.clone();
+                    k.cmds[i] = Cmd::Run { kind, seed, n: n - 1 };
+                    cands.push(k);
+                }
+            }
+        }
+        if cur.chunk != 0 {
+            cands.push(Case { chunk: 0, ..cur.clone() });
+        }
+        for cand in cands {
+            if budget == 0 {
+                break 'outer;
+            }
+            budget -= 1;
+            if let Some(h) = ok(model, &cand, cur_h) {
+                cur = cand;
+                cur_h = h;
+                continue 'outer;
+            }
+        }
+        break;
+    }
+    cur
+}
+
+fn report_failure(model: &mut Model, rep: &mut Report, fixed: bool, c: &Case, d: Dis) {
+    // a history whose hazards have all been recorded already is a repeat
+    if d.kind == Kind::SpecViolated && !d.hazards.is_empty() && d.hazards.iter().all(|h| rep.has_key(&format!("C12/{}", h))) {
+        rep.count("repeat_violations", d.key.clone());
+        return;
+    }
+    if rep.has_key(&d.key) {
+        rep.count("repeat_violations", d.key.clone());
+        return;
+    }
+    let small = shrink(model, fixed, c, &d);
+    let d2 = run_case(model, fixed, &small, None).unwrap_or(d);
+    rep.violation(Violation {
+        kind: d2.kind,
+        key: d2.key.clone(),
+        what: format!("{} [case: {}]", d2.what, c11::truncate(&case_text(&small), 300)),
+        correspondence: "corr.C12.history (Model.Tape.Tap.cmd vs Tap::play/stop/rewind/process_clocks; Spec.Deck adjudicates)".into(),
+        case: J::obj(vec![("text", J::s(case_text(&small)))]),
+        implementation: d2.implementation.clone(),
+        expected: d2.expected.clone(),
+    });
+}
+
+// ---------------------------------------------------------------- generation
+
+/// number of nominal pulses of a block
+fn pulses_of(b: &[u8]) -> u64 {
+    (if b[0] == 0 { 8063 } else { 3223 }) + 2 + 16 * b.len() as u64 + 1
+}
+
+fn gen_history(rng: &mut Rng, blocks: &[Vec<u8>]) -> Vec<Cmd> {
+    let total_pulses: u64 = blocks.iter().map(|b| pulses_of(b)).sum();
+    let mut cmds = vec![];
+    let n = rng.range(3, 12);
+    let mut playing = false;
+    for _ in 0..n {
+        match rng.below(10) {
+            0 | 1 => {
+                cmds.push(Cmd::Play);
+                playing = true;
+            }
+            2 | 3 => {
+                cmds.push(Cmd::Stop);
+                playing = false;
+            }
+            4 => cmds.push(Cmd::Rewind),
+            5 | 6 => {
+                // coarse advance to an arbitrary point of the waveform: every call of 4000 T either
+                // runs a pulse down or fires, so two calls per pulse (pauses need 875)
+                let target = match rng.below(6) {
+                    0 => rng.below(40),                               // early pilot
+                    1 => total_pulses + rng.below(20),                // around / past the end
+                    2 => pulses_of(&blocks[0]).saturating_sub(rng.below(30)), // end of first block, pause
+                    _ => rng.below(total_pulses + 1),
+                };
+                cmds.push(Cmd::Run { kind: 5, seed: 4000, n: 2 * target + rng.below(3) });
+                if rng.chance(1, 3) {
+                    // get through a pause quickly
+                    cmds.push(Cmd::Run { kind: 5, seed: 60000, n: rng.range(1, 70) });
+                }
+            }
+            _ => {
+                // fine-grained advance: a few pulses with steps of 1..16 T
+                cmds.push(Cmd::Run { kind: rng.below(5) as u8, seed: rng.next() as u32, n: rng.range(1, 1500) });
+            }
+        }
+        if !playing && rng.chance(1, 3) {
+            cmds.push(Cmd::Play);
+            playing = true;
+        }
+    }
+    // always end with something observable
+    cmds.push(Cmd::Play);
+    cmds.push(Cmd::Run { kind: 5, seed: 4000, n: rng.range(2, 60) });
+    cmds.push(Cmd::Run { kind: 0, seed: rng.next() as u32, n: rng.range(100, 800) });
+    cmds
+}
+
+fn gen_blocks(rng: &mut Rng) -> Vec<Vec<u8>> {
+    let n = rng.range(1, 3);
+    (0..n)
+        .map(|_| {
+            let len = match rng.below(5) {
+                0 => 1,
+                1 => rng.range(129, 140) as usize,
+                _ => rng.range(2, 6) as usize,
+            };
+            let mut b = vec![if rng.chance(1, 6) { 0x00 } else { rng.u8() | 1 }];
+            b.extend(rng.bytes(len - 1));
+            b
+        })
+        .collect()
+}
+
+// ---------------------------------------------------------------- system level
+
+fn sys_cases(rng: &mut Rng, n: u64) -> Vec<(SysCase, Vec<u8>, &'static str)> {
+    let mut out = vec![];
+    for idx in 0..n {
+        let mk = |rng: &mut Rng, tag: u8| {
+            let len = rng.range(3, 10) as usize;
+            let mut b = vec![0xFF, tag];
+            b.extend(rng.bytes(len));
+            let x = b.iter().fold(0u8, |a, v| a ^ v);
+            b.push(x);
+            b
+        };
+        let b1 = mk(rng, 0x11);
+        let b2 = mk(rng, 0x22);
+        let tape = c11::encode(&[b1.clone(), b2.clone()]);
+        let load = |b: &Vec<u8>, ix: u16| SysOp::Load(Req { a: 0xFF, load: true, ix, de: (b.len() - 2) as u16, fill: Fill::None });
+        let ix = rng.range(0x5000, 0xE000) as u16;
+        let (ops, expect, name): (Vec<SysOp>, Vec<Vec<u8>>, &'static str) = match idx % 4 {
+            0 => (
+                // pause in the pilot, resume, both blocks load (the ROM needs ~1.3 s of pilot: waiting loop of about a
+                // second plus 256 pulse pairs; a data pilot lasts 2 s, so at most ~20 frames of it may be spent before)
+                vec![SysOp::Play, SysOp::Idle(rng.range(3, 20) as usize), SysOp::Stop, SysOp::Idle(rng.range(1, 30) as usize), SysOp::Play, load(&b1, ix), load(&b2, ix)],
+                vec![b1.clone(), b2.clone()],
+                "stop;play in the pilot",
+            ),
+            1 => (
+                // repeated stop and repeated play around the pause
+                vec![SysOp::Play, SysOp::Idle(rng.range(3, 20) as usize), SysOp::Stop, SysOp::Idle(5), SysOp::Stop, SysOp::Play, SysOp::Play, load(&b1, ix), load(&b2, ix)],
+                vec![b1.clone(), b2.clone()],
+                "stop;stop;play;play",
+            ),
+            2 => (
+                // load block 1, rewind during the pause/next pilot, block 1 again, then block 2
+                vec![SysOp::Play, load(&b1, ix), SysOp::Idle(rng.range(1, 90) as usize), SysOp::Rewind, load(&b1, ix), load(&b2, ix)],
+                vec![b1.clone(), b1.clone(), b2.clone()],
+                "rewind while playing",
+            ),
+            _ => (
+                // stop in the middle of block 1's pilot, rewind while stopped, play: clean start
+                vec![SysOp::Play, SysOp::Idle(rng.range(3, 20) as usize), SysOp::Stop, SysOp::Rewind, SysOp::Play, load(&b1, ix), load(&b2, ix)],
+                vec![b1.clone(), b2.clone()],
+                "stop;rewind;play",
+            ),
+        };
+        out.push((SysCase { tape, ops }, c11::encode(&expect), name));
+    }
+    out
+}
+
+pub fn run(o: &Opts) -> Report {
     let mut rep = Report::new("C12");
-    rep.notes.push("not built yet".into());
+    rep.rule = "component level: random histories of 3-12 commands over {play, stop, rewind, coarse advance (calls of 4000 or 60000 T to \
+reach any point of the waveform: early pilot, arbitrary pulse, end of first block/pause, around and past the end of the tape), fine advance \
+(up to 1500 calls of 1..16 T in five schedule families)} on tapes of 1-3 blocks (1, 2-5 and 129-139 bytes, occasionally flag 0x00), always \
+ending in play + advance; every EAR edge time and the stopped state compared exactly with the Lean model and with the cassette-deck spec. \
+System level: the real ROM loading blocks after scripted Emulator::play_tape/stop_tape/rewind_tape (stop;play, stop;stop;play;play, rewind \
+while playing, stop;rewind;play), compared with LD-BYTES on the block sequence a deck delivers. distinct/non-trivial = distinct (sequence of \
+deck commands, deck stopped at the end) of histories in which at least one edge was produced after the first stop/rewind"
+        .into();
+    let mut model = Model::spawn(&o.model, "C12");
+    let mut m10 = Model::spawn(&o.model, "C10");
+    let fixed = c11::detect_variant();
+    rep.extra.push(("tree_variant".into(), J::s(if fixed { "stop/rewind repaired (C12-1 present)" } else { "code as found" })));
+
+    if let Some(text) = &o.replay {
+        rep.sample(J::s(c11::truncate(text, 400)));
+        if text.starts_with("system") {
+            // "system expect=<hex> tape=<hex> ; ops"
+            let c = c11::parse_sys(text);
+            let expect = text
+                .split_whitespace()
+                .find_map(|kv| kv.strip_prefix("expect="))
+                .map(|h| if h == "-" { vec![] } else { unhex(h) })
+                .unwrap_or(c.tape.clone());
+            if let Some(d) = c11::run_sys_case(&mut m10, &c, &expect, "C12", Some(&mut rep)) {
+                report_sys(&mut rep, &c, &expect, d, "replay");
+            }
+        } else {
+            let c = parse_case(text);
+            if let Some(d) = run_case(&mut model, fixed, &c, Some(&mut rep)) {
+                report_failure(&mut model, &mut rep, fixed, &c, d);
+            }
+        }
+        return rep;
+    }
+
+    // 0. the witness histories of the three stale-state paths (regression corpus)
+    let corpus = [
+        "component chunk=0 tape=0100ff0100ff ; cmd play ; run 5 1 1 ; cmd stop ; cmd stop ; cmd play ; run 5 bb8 1 ; run 5 1 1",
+        "component chunk=0 tape=0100ff ; cmd play ; run 5 fa0 1930 ; cmd rewind ; run 5 fa0 1a00",
+        "component chunk=0 tape=0100ff ; cmd play ; run 5 1 1 ; cmd stop ; cmd play ; run 5 fa0 1980 ; run 5 ea60 40 ; cmd play ; run 5 fa0 1a00",
+    ];
+    for t in corpus {
+        let c = parse_case(t);
+        rep.count("cases", "corpus");
+        if let Some(d) = run_case(&mut model, fixed, &c, Some(&mut rep)) {
+            report_failure(&mut model, &mut rep, fixed, &c, d);
+        }
+    }
+
+    // 1. random histories
+    let mut rng = Rng::new(o.seed ^ 0x0C12);
+    let n = o.n(2000, 200_000);
+    for idx in 0..n {
+        let mut r = rng.fork();
+        let blocks = gen_blocks(&mut r);
+        let cmds = gen_history(&mut r, &blocks);
+        let c = Case { tape: c11::encode(&blocks), chunk: *r.pick(&[0usize, 0, 3]), cmds };
+        let shape: Vec<&str> = c
+            .cmds
+            .iter()
+            .map(|k| match k {
+                Cmd::Play => "P",
+                Cmd::Stop => "S",
+                Cmd::Rewind => "R",
+                Cmd::Run { kind: 5, .. } => "A",
+                Cmd::Run { .. } => "a",
+            })
+            .collect();
+        for k in &c.cmds {
+            rep.count("commands", match k { Cmd::Play => "play", Cmd::Stop => "stop", Cmd::Rewind => "rewind", Cmd::Run { kind: 5, .. } => "advance (coarse)", Cmd::Run { .. } => "advance (1..16 T)" });
+        }
+        rep.count("history_length", format!("{:02}", c.cmds.len()));
+        rep.class(shape.join(""));
+        if idx < 2 {
+            rep.sample(J::s(c11::truncate(&case_text(&c), 300)));
+        }
+        if let Some(d) = run_case(&mut model, fixed, &c, Some(&mut rep)) {
+            rep.count("disagreeing_histories", format!("{:?} {}", d.kind, d.key));
+            report_failure(&mut model, &mut rep, fixed, &c, d);
+        }
+    }
+
+    // 2. system level
+    let mut rng = Rng::new(o.seed ^ 0x5C12);
+    for (c, expect, name) in sys_cases(&mut rng, o.n(8, 200)) {
+        rep.count("cases", format!("system: {}", name));
+        if let Some(d) = c11::run_sys_case(&mut m10, &c, &expect, "C12", Some(&mut rep)) {
+            report_sys(&mut rep, &c, &expect, d, name);
+        }
+    }
+    rep.extra.push(("histories".into(), J::I(n as i64)));
+    rep.extra.push(("model_requests".into(), J::I((model.requests + m10.requests) as i64)));
     rep
+}
+
+fn report_sys(rep: &mut Report, c: &SysCase, expect: &[u8], d: c11::Dis, name: &str) {
+    // the system-level symptom of the stale-state defects is keyed by the scripted scenario
+    let key = format!("{}/{}", d.key, name.replace(' ', "-"));
+    if rep.has_key(&key) {
+        rep.count("repeat_violations", key);
+        return;
+    }
+    let text = c11::sys_text(c).replacen("system ", &format!("system expect={} ", if expect.is_empty() { "-".to_string() } else { hex(expect) }), 1);
+    rep.violation(Violation {
+        kind: d.kind,
+        key,
+        what: format!("{} (scenario: {}) [case: {}]", d.what, name, c11::truncate(&text, 300)),
+        correspondence: "corr.C12.rom (real ROM loads after Emulator::play_tape/stop_tape/rewind_tape vs the deck's block sequence)".into(),
+        case: J::obj(vec![("text", J::s(text))]),
+        implementation: d.implementation.clone(),
+        expected: d.expected.clone(),
+    });
 }
